@@ -195,6 +195,8 @@ def check_c15(c, af, a, mf):
     oc = af.get("outcome")
     if oc in ("panic", "abort", "timeout"):
         return {"why": f"enum definition makes the generator {oc}", "finding": None}
+    if f.get("base") == "int":
+        return None   # the property text speaks of bit patterns; signed fields are decided by impl = model only
     if ok:
         if oc == "error" and af.get("kind") in ENUM_KINDS:
             return {"why": "a well-formed enum is rejected: " + af["kind"], "finding": None}
@@ -261,6 +263,8 @@ def check_c07(c, af, a, mf):
     if c.get("profile") != "enum" or af.get("outcome") != "ok":
         return None
     r, f, e, use_try, width = the_enum_field(c)
+    if f.get("base") == "int":
+        return None
     ens = [x for x in af.get("enums", []) if x["name"] == "En"]
     if not ens:
         return {"why": "accepted enum definition but no enum emitted", "finding": None}
@@ -1298,6 +1302,32 @@ def check_c03(c, af, a, mf):
                 if x["conv"] == "bool" and (x["end"] - x["start"] != 1 or x["carrier"] != "u8"):
                     return {"why": f"{fs['name']}.{f['name']} {role}: bool accessor over {x['end'] - x['start']} bits of {x['carrier']}", "finding": None}
     return None
+
+
+def check_c02(c, af, a, mf):
+    """Generator half of C02: the getter and the setter emitted for a field call the same codec family with the
+    same byte order, bit range and carrier, and those are the declared ones (so that the round-trip and
+    isolation theorems about load/store apply to the pair)."""
+    if af.get("outcome") != "ok":
+        return None
+    for fs in af.get("field_sets", []):
+        for f in fs["fields"]:
+            g, st = f.get("getter"), f.get("setter")
+            if g and st:
+                a1 = (g["fn"].replace("load_", ""), g["byte_order"], g["start"], g["end"], g["carrier"])
+                a2 = (st["fn"].replace("store_", ""), st["byte_order"], st["start"], st["end"], st["carrier"])
+                if a1 != a2:
+                    return {"why": f"{fs['name']}.{f['name']}: getter uses {a1}, setter uses {a2}", "finding": None}
+    v = check_c06(c, af, a, mf)
+    if v and (" getter: " in v["why"] or " setter: " in v["why"]) and v.get("finding") is None:
+        return v
+    return None
+
+
+RULES["C02"] = ("generator half: field sets of generated devices in all four syntaxes; the emitted getter and setter of every "
+                "field must use the same codec family, byte order, range and carrier, equal to the declared layout")
+CHECKS["C02"] = check_c02
+NONTRIVIAL["C02"] = lambda c: True
 
 
 RULES["C03"] = ("part (a): exhaustive (s,e) geometry and random cases through the real ops functions with canary bytes; part (b): every "
